@@ -16,6 +16,7 @@
 //!   `G <optstring> <arg>*`                        `while getopts optstring v arg…` run to the end in a virtual shell
 //!   `Y <ln><p> <table> <arg>*`                    typeset/syntax.rs `parse` + `interpret` called directly (tables `@typeset`,
 //!       `@export`, `@readonly` = the real constants, or an explicit `<short>:<long>:<attr>` list)
+//!   `Q <builtin> <portable> <arg>*`               cd / pwd / unset / unalias `syntax::parse` (parse_arguments + the built-in's own checks)
 //!   `U <names> <init> <params0> <arg>*`           `set arg…` run in a virtual shell whose option states are <init> (`name.bit;…`, all
 //!       options) and whose positional parameters are <params0> (`_` or comma-separated hex): observation = exit status, diagnostic,
 //!       output, the options whose state changed, the positional parameters afterwards (model: set.rs `main` / `modify`)
@@ -1964,6 +1965,186 @@ fn typeset_cases(e: &mut Emitter, rng: &mut Rng, thorough: bool) {
     }
 }
 
+// ------------------------------------------------------------------------------------------
+// `Q <builtin> <portable> <arg>*`: the whole `syntax::parse` of a common-parser built-in (parse_arguments + what the
+// built-in's syntax.rs does afterwards: operand counts, exclusive options, required operands), called directly.
+// Observation: the Command, or the error class (a CommonError with the class of the parse_arguments error).
+// Oracle (Rust only): the option part rewritten into other spellings (groups split, letters replaced by long names,
+// single letters merged into one group, a `--` inserted) must give the same Command / error class.
+
+fn observe_q(builtin: &str, portable: bool, args: &[String]) -> String {
+    guarded(|| {
+        let mut env = yash_env::Env::new_virtual();
+        if portable {
+            env.options.set(ShOpt::Portable, OptState::On);
+        }
+        let fields: Vec<Field> = args.iter().map(|a| Field::dummy(a.clone())).collect();
+        let strs = |l: &[Field]| show_strs(l.iter().map(|f| f.value.as_str()));
+        match builtin {
+            "cd" => {
+                use yash_builtin::cd::syntax::Error as E;
+                match yash_builtin::cd::syntax::parse(&env, fields) {
+                    Ok(c) => format!(
+                        "ok cd physical={} ensure={} operand={}",
+                        (c.mode == yash_builtin::cd::Mode::Physical) as u8,
+                        c.ensure_pwd as u8,
+                        c.operand.map(|f| enc_str(&f.value)).unwrap_or_else(|| "~".into())
+                    ),
+                    Err(E::CommonError(e)) => format!("err:common:{}", show_err(&e)),
+                    Err(E::EnsurePwdNotPhysical(_)) => "err:ensurePwdNotPhysical".into(),
+                    Err(E::EmptyOperand(_)) => "err:emptyOperand".into(),
+                    Err(E::UnexpectedOperands(o)) => format!("err:unexpectedOperands:[{}]", strs(&o)),
+                    Err(_) => "err:other".into(),
+                }
+            }
+            "pwd" => {
+                use yash_builtin::pwd::syntax::Error as E;
+                match yash_builtin::pwd::syntax::parse(&env, fields) {
+                    Ok(m) => format!("ok pwd physical={}", (m == yash_builtin::pwd::Mode::Physical) as u8),
+                    Err(E::CommonError(e)) => format!("err:common:{}", show_err(&e)),
+                    Err(E::UnexpectedOperands(o)) => format!("err:unexpectedOperands:[{}]", strs(&o)),
+                    Err(_) => "err:other".into(),
+                }
+            }
+            "unset" => {
+                use yash_builtin::unset::syntax::Error as E;
+                match yash_builtin::unset::syntax::parse(&env, fields) {
+                    Ok(c) => format!("ok unset functions={} [{}]", (c.mode == yash_builtin::unset::Mode::Functions) as u8, strs(&c.names)),
+                    Err(E::CommonError(e)) => format!("err:common:{}", show_err(&e)),
+                    Err(E::ConflictingOption(_)) => "err:conflictingOption".into(),
+                    Err(E::MissingOperand) => "err:missingOperand".into(),
+                    Err(_) => "err:other".into(),
+                }
+            }
+            "unalias" => {
+                use yash_builtin::unalias::Command as C;
+                use yash_builtin::unalias::syntax::Error as E;
+                match yash_builtin::unalias::syntax::parse(&env, fields) {
+                    Ok(C::Remove(n)) => format!("ok unalias remove [{}]", strs(&n)),
+                    Ok(C::RemoveAll) => "ok unalias all".into(),
+                    Err(E::CommonError(e)) => format!("err:common:{}", show_err(&e)),
+                    Err(E::ConflictingOptionAndOperand { .. }) => "err:conflictingOptionAndOperand".into(),
+                    Err(E::MissingArgument) => "err:missingArgument".into(),
+                    Err(_) => "err:other".into(),
+                }
+            }
+            _ => "bad-builtin".into(),
+        }
+    })
+}
+
+/// other spellings of the leading option arguments (all four tables have flags only): split, long names, merged, `--`
+fn q_variants(specs: &[SpecD], args: &[String]) -> Vec<Vec<String>> {
+    let mut letters: Vec<char> = vec![];
+    let mut i = 0;
+    while i < args.len() {
+        let cs: Vec<char> = args[i].chars().collect();
+        if cs.len() >= 2 && cs[0] == '-' && cs[1] != '-' && cs[1..].iter().all(|c| first_short(specs, *c).is_some()) {
+            letters.extend_from_slice(&cs[1..]);
+            i += 1;
+        } else {
+            break;
+        }
+    }
+    if letters.is_empty() {
+        return vec![];
+    }
+    let rest = &args[i..];
+    let with = |opts: Vec<String>, sep: bool| {
+        let mut v = opts;
+        if sep {
+            v.push("--".into());
+            if rest.first().map(|s| s.as_str()) == Some("--") {
+                v.extend_from_slice(&rest[1..]);
+                return v;
+            }
+            // an inserted `--` is only equivalent if the options really end here
+            if rest.first().is_some_and(|a| a.starts_with('-') && a.len() > 1) {
+                v.pop();
+            }
+        }
+        v.extend_from_slice(rest);
+        v
+    };
+    let split: Vec<String> = letters.iter().map(|c| format!("-{c}")).collect();
+    let merged = vec![format!("-{}", letters.iter().collect::<String>())];
+    let long: Vec<String> = letters
+        .iter()
+        .map(|c| match first_short(specs, *c).and_then(|s| s.long.clone()) {
+            Some(l) => format!("--{l}"),
+            None => format!("-{c}"),
+        })
+        .collect();
+    vec![with(split.clone(), false), with(merged, false), with(long, false), with(split, true)]
+}
+
+fn run_q(w: &[&str], tables: &[(String, Vec<SpecD>)]) -> (String, String) {
+    let bad = || ("bad-case".to_string(), "-".to_string());
+    if w.len() < 3 {
+        return bad();
+    }
+    let portable = w[2] == "1";
+    let Some(args) = w[3..].iter().map(|a| dec_str(a)).collect::<Option<Vec<String>>>() else { return bad() };
+    let obs = observe_q(w[1], portable, &args);
+    let Some((_, specs)) = tables.iter().find(|(n, _)| n == w[1]) else { return bad() };
+    let mut oracle = "-".to_string();
+    for v in q_variants(specs, &args) {
+        if v == args {
+            continue;
+        }
+        let long_used = v.iter().take_while(|a| a.starts_with('-') && a.as_str() != "--").any(|a| a.starts_with("--"));
+        if portable && long_used {
+            continue; // long names are rejected under `portable` by design
+        }
+        let o2 = observe_q(w[1], portable, &v);
+        if o2 != obs {
+            oracle = format!("FAIL:spelling {v:?} gives {o2}");
+            break;
+        }
+        oracle = "ok".into();
+    }
+    (obs, oracle)
+}
+
+fn post_cases(e: &mut Emitter, rng: &mut Rng, tables: &[(String, Vec<SpecD>)], thorough: bool) {
+    for b in ["cd", "pwd", "unset", "unalias"] {
+        let Some((_, specs)) = tables.iter().find(|(n, _)| n == b) else { continue };
+        let mut toks: Vec<String> = vec!["--".into(), "-".into(), "x".into(), "y".into(), "".into(), "-Z".into(), "--zzz".into(), "-x".into()];
+        for s in specs {
+            if let Some(c) = s.short {
+                toks.push(format!("-{c}"));
+                for s2 in specs {
+                    if let Some(c2) = s2.short {
+                        toks.push(format!("-{c}{c2}"));
+                    }
+                }
+            }
+            if let Some(l) = &s.long {
+                toks.push(format!("--{l}"));
+                toks.push(format!("--{}", &l[..1]));
+                toks.push(format!("--{l}=x"));
+            }
+        }
+        let refs: Vec<&str> = toks.iter().map(|s| s.as_str()).collect();
+        let b_owned = b.to_string();
+        let mk = |p: bool, a: &[&str]| {
+            let mut s = format!("Q {} {}", b_owned, p as u8);
+            for x in a {
+                s.push(' ');
+                s.push_str(&enc_str(x));
+            }
+            s
+        };
+        enumerate_tokens(e, &refs, 2, &mut |a| vec![mk(false, a), mk(true, a)]);
+        for _ in 0..(if thorough { 20_000 } else { 800 }) {
+            let len = 3 + rng.below(3);
+            let a: Vec<&str> = (0..len).map(|_| refs[rng.below(refs.len())]).collect();
+            let p = rng.chance(1, 4);
+            e.case(&mk(p, &a));
+        }
+    }
+}
+
 fn guarded_pair<F: FnOnce() -> (String, String)>(f: F) -> (String, String) {
     let cell = std::cell::RefCell::new(String::from("-"));
     let obs = guarded(|| {
@@ -2753,6 +2934,10 @@ fn run_case(case: &str) -> (String, String) {
         Some(&"K") => run_k(&w),
         Some(&"U") => run_u(&w),
         Some(&"Y") => run_y(&w),
+        Some(&"Q") => {
+            static TABLES: std::sync::OnceLock<Vec<(String, Vec<SpecD>)>> = std::sync::OnceLock::new();
+            run_q(&w, TABLES.get_or_init(builtin_tables))
+        }
         _ => ("bad-case".into(), "-".into()),
     }
 }
@@ -3396,6 +3581,7 @@ fn main() {
     bespoke_shell_cases(&mut e);
     bespoke_cases(&mut e, &mut rng, thorough);
     typeset_cases(&mut e, &mut rng, thorough);
+    post_cases(&mut e, &mut rng, &tables, thorough);
 
     // (i) exhaustive: small tables x all vectors over the token set
     let small = small_tables(thorough);
